@@ -1,5 +1,6 @@
 import TIV.C14.Step
 import TIV.C14.Generated
+import TIV.C14.Deco
 /-!
 # C14 — property theorems: terminal access is serialised across threads and processes
 
@@ -158,6 +159,78 @@ theorem idle_nothing_unread {proc : Nat → Nat} {s : State} (hr : Reachable pro
     (hi : ∀ t, s.thr t = .idle) : s.repl ++ s.pend = [] :=
   hr.inv.tnone (fun u => section_drained hr (by rw [hi u]; rfl))
 
+/-! ### which callables are synchronised: `no_redecorate(lock_tty)` -/
+
+/-- decorating a function that was never decorated always wraps it … -/
+theorem Deco.decorate_fresh : Deco.decorate .fn = (.wrapper, true) := rfl
+
+/-- … and decorating twice is decorating once (the wrapper is returned unchanged). -/
+theorem Deco.decorate_idempotent (o : Deco.Obj) :
+    Deco.decorate (Deco.decorate o).1 = ((Deco.decorate o).1, false) := by
+  cases o <;> rfl
+
+theorem Deco.wrapper_kept {i : Nat} : ∀ (mid : List Deco.Op) (s : Deco.St),
+    s i = some .wrapper → (∀ op ∈ mid, op.keeps i = true) → (Deco.run s mid).1 i = some .wrapper
+  | [], _, h, _ => h
+  | op :: rest, s, h, hk => by
+    have hop := hk op (by simp)
+    have hrest : ∀ o ∈ rest, o.keeps i = true := fun o ho => hk o (by simp [ho])
+    have hs : (Deco.step s op).1 i = some .wrapper := by
+      cases op with
+      | new j =>
+        have : i ≠ j := by intro e; subst e; simp [Deco.Op.keeps] at hop
+        simp [Deco.step, Deco.St.set, this, h]
+      | dec j =>
+        simp only [Deco.step]
+        cases hj : s j with
+        | none => simpa using h
+        | some o =>
+          by_cases e : i = j
+          · subst e; rw [h] at hj; cases hj; simp [Deco.St.set, Deco.decorate]
+          · simp [Deco.St.set, e, h]
+      | call j =>
+        simp only [Deco.step]
+        cases hj : s j with
+        | none => simpa using h
+        | some o => cases o <;> simpa using h
+      | drop j =>
+        have : i ≠ j := by intro e; subst e; simp [Deco.Op.keeps] at hop
+        simp only [Deco.step]
+        cases hj : s j with
+        | none => simpa using h
+        | some o => simp [Deco.St.set, this, h]
+    simpa [Deco.run] using Deco.wrapper_kept rest _ hs hrest
+
+/-- EVERY CALLABLE RETURNED BY `lock_tty` IS SYNCHRONISED, in every history of creating, decorating,
+    calling and dropping callables: once slot `i` has been decorated, every call of it — until the
+    slot is given a new object or dropped — runs with the terminal lock held. -/
+theorem Deco.decorated_calls_sync (s : Deco.St) (i : Nat) (o : Deco.Obj) (hs : s i = some o)
+    (mid : List Deco.Op) (hk : ∀ op ∈ mid, op.keeps i = true) :
+    (Deco.run s (.dec i :: mid ++ [.call i])).2.getLast? = some "sync" := by
+  have h1 : (Deco.step s (.dec i)).1 i = some .wrapper := by
+    simp only [Deco.step, hs]; cases o <;> simp [Deco.St.set, Deco.decorate]
+  have h2 := Deco.wrapper_kept mid _ h1 hk
+  have key : ∀ (l : List Deco.Op) (t : Deco.St), (Deco.run t l).1 i = some .wrapper →
+      (Deco.run t (l ++ [.call i])).2.getLast? = some "sync" := by
+    intro l
+    induction l with
+    | nil => intro t ht; simp [Deco.run, Deco.step] at ht ⊢; simp [ht]
+    | cons op rest ih =>
+      intro t ht
+      have := ih (Deco.step t op).1 (by simpa [Deco.run] using ht)
+      simp only [List.cons_append, Deco.run]
+      cases hr : (Deco.run (Deco.step t op).1 (rest ++ [.call i])).2 with
+      | nil => rw [hr] at this; simp at this
+      | cons a b => rw [hr] at this; simpa [List.getLast?_cons_cons] using this
+  have := key mid (Deco.step s (.dec i)).1 h2
+  simp only [Deco.run, List.cons_append]
+  cases hr : (Deco.run (Deco.step s (.dec i)).1 (mid ++ [.call i])).2 with
+  | nil => rw [hr] at this; simp at this
+  | cons a b => rw [hr] at this; simpa [List.getLast?_cons_cons] using this
+
+example : (Deco.run Deco.empty [.new 0, .dec 0, .call 0, .drop 0, .new 0, .call 0, .dec 0, .dec 0, .call 0]).2
+    = ["new", "wrap", "sync", "drop", "new", "plain", "wrap", "same", "sync"] := by decide
+
 /-- schedules of the driver produce reachable states, so the theorems apply to every trace the
     correspondence check replays on the real code -/
 theorem runSched_reachable {proc : Nat → Nat} :
@@ -186,6 +259,22 @@ example : ((runSched (init raceProc) raceSched).1.thr 2).inside = true := by dec
 example : (runSched (init raceProc) raceSched).2.all id = true := by decide
 /-- thread 0 is now blocked at its second acquisition — the step is not enabled -/
 example : (step (runSched (init raceProc) raceSched).1 0 .adv).isSome = false := by decide
+/-- RAISING BODIES: thread 2's nested activation raises, the exception is handled in the outer body,
+    which then raises itself; both `with` statements release, the thread ends idle holding nothing
+    and thread 0 (blocked above) gets in — all of it inside `Reachable`, so `mutex` covers it. -/
+example : let r := runSched (init raceProc) (raceSched ++
+      [(2, .call), (2, .adv), (2, .adv), (2, .adv), (2, .adv), (2, .raise), (2, .adv), (2, .adv),
+       (2, .raise), (2, .adv), (2, .adv), (0, .adv)])
+    r.2.all id = true ∧ (r.1.thr 2) = .idle ∧ (r.1.thr 0).inside = true := by decide
+/-- TWO CONCURRENT FIRST STARTS: both starters load the thread lock; the second one re-tests the
+    global after acquiring it, takes the `rd` branch and hands over the SAME lock `M 0`. -/
+def twoStarts : List (Nat × Act) :=
+  [(0, .start 1), (1, .start 2), (0, .adv), (1, .adv), (0, .adv), (0, .adv), (0, .adv), (0, .adv),
+   (1, .adv), (1, .adv), (1, .adv), (1, .adv), (0, .adv), (1, .adv)]
+example : (runSched (init (fun _ => 0)) twoStarts).2.all id = true ∧
+    (runSched (init (fun _ => 0)) twoStarts).1.cur 1 = .M 0 ∧
+    (runSched (init (fun _ => 0)) twoStarts).1.cur 2 = .M 0 ∧
+    (runSched (init (fun _ => 0)) twoStarts).1.cur 0 = .M 0 := by decide
 /-- a nested call inside the child: hypotheses of `reentrant` are satisfiable -/
 example : (step (runSched (init raceProc) (raceSched ++ [(2, .call), (2, .adv)])).1 2 .adv).isSome
     = true := by decide
